@@ -273,6 +273,7 @@ class Run(C1.Run):
 
 
 def run_one(tape, only=None):
+    F._T["state"].restore()      # each run models a fresh interpreter
     res = new_result()
     w = gen_workload(tape)
     scratch = fresh_dir(scratch_root(), "c16")
